@@ -355,7 +355,7 @@ Section C06_maintenance.
   Variable id_secure : N -> bytes -> bool.
   Variable cfg : config.
   Variable now : Z.
-  Variable answers : node -> bool.
+  Variable answers : node -> ping_outcome.
   Variable refresh : nat -> list node -> list node.
 
   Theorem C06_maint_pings_only_questionable nodes j tg n :
@@ -366,12 +366,12 @@ Section C06_maintenance.
   Theorem C06_maint_flag_only_unanswered_questionable nodes i m :
     In m (after_pings id_secure cfg now answers nodes i) -> n_failed m = true ->
     In m nodes \/
-    exists n, In n nodes /\ n_slot n = i /\ m_quest id_secure cfg now n = true /\ answers n = false /\
+    exists n, In n nodes /\ n_slot n = i /\ m_quest id_secure cfg now n = true /\ answers n = PSilent /\
               m = apply_update now UFailedPing n.
   Proof. exact (after_pings_flagged id_secure cfg now answers nodes i m). Qed.
 
   Theorem C06_maint_answered_ping_makes_good n :
-    answers n = true -> m_quest id_secure cfg now n = true ->
+    answers n = PSameId -> m_quest id_secure cfg now n = true ->
     m_good id_secure cfg now (settle_ping now answers n) = true.
   Proof. exact (settle_answered_good id_secure cfg now answers n). Qed.
 
@@ -433,7 +433,7 @@ Definition MX_g := rm_node 1000 [Byte.x0a; Byte.x00; Byte.x00; Byte.x01] 6881 No
 Definition MX_q1 := rm_node 1001 [Byte.x0a; Byte.x00; Byte.x00; Byte.x02] 6881 None None false O.
 Definition MX_q2 := rm_node 1002 [Byte.x0a; Byte.x00; Byte.x00; Byte.x03] 6881 None (Some 0%Z) false O.
 Example C06_maint_nonvacuous :
-  let r := rm_pass MX_cfg MX_now false [(1001, addr_key (n_addr MX_q1))] [] [MX_g; MX_q1; MX_q2] in
+  let r := rm_pass MX_cfg MX_now false [(1001, addr_key (n_addr MX_q1))] [] [] [MX_g; MX_q1; MX_q2] in
   map (fun p => fst (rm_phase_view p)) (fst r) = [0; 1; 2] /\
   (exists tg, nth_error (fst r) O = Some (PPing O tg) /\ tg = [MX_q1; MX_q2]) /\
   In MX_g (snd r) /\ map (rm_class MX_cfg MX_now) (snd r) = [0; 0; 2] /\
